@@ -35,6 +35,7 @@ from dask_expr._expr import (
     Blockwise,
     Expr,
     Filter,
+    Partitions,
     PartitionsFiltered,
     PinnedPartitioning,
     Projection,
@@ -1209,14 +1210,19 @@ class _SetIndexPost(Blockwise):
 
     def _get_culled_divisions(self, divisions):
         if self.frame.npartitions < len(divisions) - 1:
-            part_filter = list(self.frame.find_operations(PartitionsFiltered))
+            # The selection is either still a ``Partitions`` expression on its
+            # way down or was already absorbed by the shuffle
+            part_filter = list(
+                self.frame.find_operations((Partitions, PartitionsFiltered))
+            )
             if len(part_filter) > 0:
+                selection = part_filter[0]
+                if isinstance(selection, Partitions):
+                    partitions = selection.partitions
+                else:
+                    partitions = selection._partitions
                 return tuple(
-                    [
-                        div
-                        for i, div in enumerate(divisions)
-                        if i in part_filter[0]._partitions
-                    ]
+                    [div for i, div in enumerate(divisions) if i in partitions]
                     + [divisions[-1]]
                 )
             else:
